@@ -72,9 +72,9 @@ func c04Fixture() *hx.Node {
 	}
 	for name, img := range map[string][]byte{
 		"count0": hdr(0, nil), "count1": hdr(1, nil), "count256": hdr(256, nil), "count-max": hdr(0xffffffff, nil), "count-2g": hdr(0x80000000, nil),
-		"nonmono":  hdr(3, []byte{0, 0, 0, 0, 0, 0, 0, 9, 0, 0, 0, 4, 0, 0, 0, 6, 0, 0, 0, 5, 0, 0, 0, 8}),
-		"beyond":   hdr(2, []byte{0, 0, 0, 0, 0, 0, 0, 2, 0, 0xff, 0xff, 0xff, 0xff, 0xff, 0xff, 0xff}),
-		"tiny":     enc[:10],
+		"nonmono":   hdr(3, []byte{0, 0, 0, 0, 0, 0, 0, 9, 0, 0, 0, 4, 0, 0, 0, 6, 0, 0, 0, 5, 0, 0, 0, 8}),
+		"beyond":    hdr(2, []byte{0, 0, 0, 0, 0, 0, 0, 2, 0, 0xff, 0xff, 0xff, 0xff, 0xff, 0xff, 0xff}),
+		"tiny":      enc[:10],
 		"onesector": enc[:2048], "empty": {},
 		"unaligned-end": enc[:16*2048-1000],
 	} {
@@ -365,12 +365,12 @@ func TestC04Sessions(t *testing.T) {
 // ---- hostile content: library constructors in-process, the CLI tools as processes ----------
 
 type c04Content struct {
-	Kind string  `json:"kind"` // sfo | table | key | k3y | tree
-	Data hx.BStr `json:"data"`
-	Key  hx.BStr `json:"key,omitempty"`
+	Kind string   `json:"kind"` // sfo | table | key | k3y | tree
+	Data hx.BStr  `json:"data"`
+	Key  hx.BStr  `json:"key,omitempty"`
 	Tree *hx.Node `json:"tree,omitempty"`
-	Ops  []c09Op `json:"ops,omitempty"`
-	CLI  bool    `json:"cli"`
+	Ops  []c09Op  `json:"ops,omitempty"`
+	CLI  bool     `json:"cli"`
 }
 
 func genC04Content(t *rapid.T) c04Content {
